@@ -28,7 +28,7 @@ claim("C07",
       "reduce round trip for the generic grid model. Tied to the code by exhaustive correspondence over all cells within "
       "N rings, both orientations, several pitches, and generated bounds grids.",
       "Floating-point rounding of coordinates (compared to 1e-9); math.sqrt modelled by Nat.sqrt (agreement checked on "
-      "all small n and ring boundaries); label string formatting exercised on the implementation only.")
+      "all small n and ring boundaries); label strings: see the codec note below.")
 
 
 claim("C02",
@@ -81,16 +81,16 @@ claim("C09",
       "classes substituted through Stream._fileModes show, for 19 format entries x {binary, ASCII} on generated containers and all "
       "shipped fixtures, that the real files equal the model's bytes byte for byte, the reader replays the writer's call trace, data "
       "are equal after read and re-writing is identical.",
-      "float<->bit-pattern conversion and ASCII real parsing; which records each format's readWrite emits is covered by trace "
-      "equality, not a per-format model; whole-file rewrite at theorem level; generator domain limits (NSBLOK = 1, Legendre "
-      "orders <= 1, ...) run as excluded points and reported as findings.")
+      "float<->bit-pattern conversion (single/double); in the first build ASCII real parsing and which records each format's "
+      "readWrite emits were covered by measured hypotheses / trace equality only - since the continuation round both are modelled "
+      "(see below); generator domain limits (NSBLOK = 1, ...) run as excluded points and are reported as findings.")
 claim("C10",
       "Kernel-checked theorems over a statement-by-statement transcription of the merge call chain (partial mutation included): for "
       "any number of libraries and any permutation, acceptance and merged content are order-independent; the result holds exactly "
       "the union of labels with each nuclide field from its source; incompatible inputs are rejected; macroscopic constants equal "
       "sum N.sigma.nu group by group, are linear and additive, derived quantities equal their defining sums. Tied to the real "
       "classes on fixture libraries and generated library sets in every merge order and generated compositions.",
-      "payload equality (numpyHackForEqual) is an interned parameter; chi/higher-order scatter oracle-only; 'rejected => target "
+      "payload equality (numpyHackForEqual) is an interned parameter; higher-order scatter oracle-only (file-wide chi is modelled since the continuation round); 'rejected => target "
       "unchanged' is refuted in general (three witnesses, listed findings); 'zero for an empty composition' holds for the defining "
       "sum, not the code (finding); floating-point rounding.")
 claim("C11",
